@@ -431,6 +431,32 @@ func runRandomWorkload(rcx *RunCtx, o workloadOpts) {
 						if len(th.conn.Mon.Req.Frames) > nf {
 							req = th.conn.Mon.Req.Frames[len(th.conn.Mon.Req.Frames)-1]
 						}
+					} else if o.Flush && simrt.Choose(10) == 0 {
+						// a Tflush in place of the drawn request: of a request of
+						// another thread that is in flight right now, of an
+						// answered tag, of an idle tag, or of its own tag
+						upd = nil
+						tag := th.conn.Tag()
+						old := uint16(40000 + simrt.Choose(100)) // idle
+						switch simrt.Choose(4) {
+						case 0, 1:
+							fr := th.conn.Mon.Req.Frames
+							for k := len(fr) - 1; k >= 0 && k >= len(fr)-12; k-- {
+								if fr[k].Reply == nil && !fr[k].TagBusy && fr[k].Class == rc.Exact {
+									old = fr[k].Tag
+									rcx.Count("flush.of_request_in_flight", 1)
+									break
+								}
+							}
+						case 2:
+							if n := len(th.conn.Mon.Req.Frames); n > 0 {
+								old = th.conn.Mon.Req.Frames[simrt.Choose(n)].Tag
+							}
+						case 3:
+							old = tag
+						}
+						rcx.Count("flush.sent", 1)
+						req = th.conn.Send(tag, &rc.Tflush{OldTag: old})
 					} else {
 						req = th.conn.Send(th.conn.Tag(), m)
 					}
